@@ -154,6 +154,11 @@ fn build_layout(rng: &mut Rng, scratch: &str, idx: u64, full: bool) -> Layout {
                 kind = None;
             }
         }
+        if kind == Some(Kind::Bare) && roots.iter().any(|(r, k)| *k != Kind::Bare && abs.starts_with(&format!("{r}/"))) {
+            // a bare repository inside a work tree is just untracked content of that work tree
+            // (HEAD, config, hooks/… would all count as changed files): keep it out of the layouts
+            kind = None;
+        }
         std::fs::create_dir_all(&abs).unwrap();
         dirs.push(abs.clone());
         if let Some(k) = kind {
